@@ -282,7 +282,7 @@ def obligations(tier: str) -> List[Obligation]:
     templates = [
         ('query-question', [1, 0, 0, 0], 0, False, P),
         ('response-answer', [0, 1, 0, 0], 0x8400, False, P),
-        ('query-known-answer', [1, 1, 0, 0], 0, True, P - 2 if tier == 'quick' else P - 1),
+        ('query-known-answer', [1, 1, 0, 0], 0, True, P - 2),  # (4 free octets after a question do not finish in 25 min)
         ('probe-authority', [1, 0, 1, 0], 0, True, P - 1),
         ('response-garbage-after-question', [1, 1, 0, 0], 0x8400, True, P - 1),
         ('truncated-query', [1, 1, 0, 0], 0x0200, True, P - 2),
